@@ -5,7 +5,6 @@ package main
 import (
 	"fmt"
 	"go/token"
-	"go/types"
 	"strings"
 
 	"golang.org/x/tools/go/ssa"
@@ -46,135 +45,18 @@ func c04verdict(c *Ctx, r *Report, rule string) {
 				o.Bad("reader created in a go/defer statement")
 				continue
 			}
-			// aliases of the reader value
-			alias := map[ssa.Value]bool{}
-			var work []ssa.Value
+			var seeds []ssa.Value
 			for _, ref := range *val.Referrers() {
 				if ex, ok := ref.(*ssa.Extract); ok && ex.Index == 0 {
-					alias[ex] = true
-					work = append(work, ex)
+					seeds = append(seeds, ex)
 				}
 			}
-			escapes := ""
-			for len(work) > 0 {
-				v := work[len(work)-1]
-				work = work[:len(work)-1]
-				for _, ref := range *v.Referrers() {
-					switch x := ref.(type) {
-					case *ssa.MakeInterface, *ssa.ChangeInterface, *ssa.ChangeType, *ssa.Phi:
-						nv := ref.(ssa.Value)
-						if !alias[nv] {
-							alias[nv] = true
-							work = append(work, nv)
-						}
-					case *ssa.Return:
-						escapes = "returned to the caller at " + c.pos(x.Pos())
-					case *ssa.Store:
-						if x.Val == v {
-							escapes = "stored at " + c.pos(x.Pos())
-						}
-					}
-				}
-			}
-			if escapes != "" {
-				o.Bad("the reader is %s: its Close verdict cannot be tied to the data here (obligation must be checked at the new owner)", escapes)
-				continue
-			}
-			var closes, reads []ssa.CallInstruction
-			eachInstr(fn, func(_ *ssa.BasicBlock, _ int, instr ssa.Instruction) {
-				call, ok := instr.(ssa.CallInstruction)
-				if !ok {
-					return
-				}
-				uses := false
-				for _, a := range callArgs(call.Common()) {
-					if alias[a] {
-						uses = true
-					}
-				}
-				if !uses {
-					return
-				}
-				if call.Common().IsInvoke() && call.Common().Method.Name() == "Close" || callName(call.Common()) == "lzhuf.Reader.Close" {
-					if _, isDefer := instr.(*ssa.Defer); isDefer {
-						return // a deferred Close cannot influence what is returned
-					}
-					closes = append(closes, call)
-				} else {
-					reads = append(reads, call)
-				}
-			})
-			if len(reads) == 0 {
-				o.Bad("the reader is never read")
-				continue
-			}
-			var verdict ssa.CallInstruction
-			var why string
-			for _, k := range closes {
-				okK := true
-				for _, rd := range reads {
-					if instrReaches(k, rd) {
-						okK, why = false, "a read at "+c.pos(rd.Pos())+" can follow the Close at "+c.pos(k.Pos())
-					}
-				}
-				if !okK {
-					continue
-				}
-				// every data-returning exit is dominated by the nil edge of this Close
-				all := true
-				for _, ret := range returnsOf(fn) {
-					if isErrorExit(ret) || isNilConst(resOf(ret, 0)) {
-						continue
-					}
-					if !h1NilEstablished(k.Value(), ret.Block()) {
-						all, why = false, "the return at "+c.pos(ret.Pos())+" hands back data without the nil-error edge of Close dominating it"
-					}
-				}
-				if all {
-					verdict = k
-				}
-			}
-			// the reader variable may also hold another decompressor (gzip for type D proposals): only
-			// lzhuf.Reader keeps a failed read sticky until Close, so for a mixed variable the error of
-			// every read has to be tested
-			mixed := false
-			for a := range alias {
-				if ph, ok := a.(*ssa.Phi); ok {
-					for _, e := range ph.Edges {
-						if !alias[e] {
-							mixed = true
-						}
-					}
-				}
-			}
-			// the read error too
-			readChecked := true
-			for _, rd := range reads {
-				if rv := rd.Value(); rv != nil && errResult(rv) == nil && mixed && rv.Type().String() != "()" {
-					if tup, ok := rv.Type().(*types.Tuple); ok && tup.Len() > 0 && tup.At(tup.Len()-1).Type().String() == "error" {
-						readChecked = false
-						why = "the error of the read at " + c.pos(rd.Pos()) + " is discarded, and the reader may be a decompressor other than lzhuf.Reader (gzip for type D proposals), whose checksum and length verdict is only reported by Read - its Close returns nil: a damaged gzip payload is delivered as a good message"
-					}
-				}
-				if rv := rd.Value(); rv != nil && errResult(rv) != nil {
-					for _, ret := range returnsOf(fn) {
-						if isErrorExit(ret) || isNilConst(resOf(ret, 0)) {
-							continue
-						}
-						if !h1NilEstablished(rv, ret.Block()) {
-							readChecked = false
-							why = "the return at " + c.pos(ret.Pos()) + " hands back data although the error of the read at " + c.pos(rd.Pos()) + " was not tested"
-						}
-					}
-				}
-			}
-			switch {
-			case len(closes) == 0:
-				o.Bad("Close is never called on the decompressor: its CRC-16 and size check is never consulted, damaged payloads are delivered")
-			case verdict == nil || !readChecked:
+			// ip_h1r3.go: the obligation is checked where the reader is used up - in fn, or, when an
+			// unexported helper hands it back, at every call of that helper
+			if ok, why := c.h1Verdict(fn, seeds, false, 0); ok {
+				o.OK("%s", why)
+			} else {
 				o.Bad("%s", why)
-			default:
-				o.OK("Close at %s follows the last read; every return of decoded data is dominated by its nil-error edge and by the nil-error edge of the read", c.pos(verdict.Pos()))
 			}
 		}
 	}
